@@ -86,13 +86,14 @@ impl MemfsEntryOpts {
             0o40755
         });
 
-        // OR given mode with defaults for physical entries
+        // The file type bits are those of the entry's own kind whatever type bits the given mode
+        // carries e.g. the mode of a link given for the directory it is copied as
         self.mode = if self.link {
-            mode | 0o120000
+            (mode & 0o7777) | 0o120000
         } else if self.file {
-            mode | 0o100000
+            (mode & 0o7777) | 0o100000
         } else if self.dir {
-            mode | 0o40000
+            (mode & 0o7777) | 0o40000
         } else {
             mode
         };
